@@ -37,7 +37,8 @@ func (a Age) LogValue() slog.Value {
 }
 
 type Freshness struct {
-	IsStale    bool          // Whether the response is stale
+	IsStale    bool          // Whether the response is stale for this request
+	Expired    bool          // Whether the response's own freshness lifetime has passed, whatever the request tolerates
 	Age        *Age          // Current age (seconds) of the response (RFC9111 §4.2.3)
 	UsefulLife time.Duration // Freshness lifetime (seconds) of the response (RFC9111 §4.2.1)
 }
@@ -154,12 +155,13 @@ func (f *freshnessCalculator) CalculateFreshness(
 		}
 	}
 
+	expired := currentAge.Value >= usefulLife
 	if reqMaxAge, ok := reqCC.MaxAge(); ok && reqMaxAge > 0 {
 		usefulLife = min(usefulLife, reqMaxAge) // Client prefers a response no older than max-age
 	}
 	if reqMinFresh, ok := reqCC.MinFresh(); ok && reqMinFresh > 0 &&
 		(usefulLife-currentAge.Value) < reqMinFresh {
-		return &Freshness{IsStale: true, Age: currentAge, UsefulLife: usefulLife}
+		return &Freshness{IsStale: true, Expired: expired, Age: currentAge, UsefulLife: usefulLife}
 	}
 
 	maxStale := time.Duration(0)
@@ -177,5 +179,5 @@ func (f *freshnessCalculator) CalculateFreshness(
 		isStale = false
 	}
 
-	return &Freshness{IsStale: isStale, Age: currentAge, UsefulLife: usefulLife}
+	return &Freshness{IsStale: isStale, Expired: expired, Age: currentAge, UsefulLife: usefulLife}
 }
